@@ -105,6 +105,10 @@ func RunQB(s *simrt.Sim, a *harness.Args, r *harness.Result) {
 		textproto.WriteHeader(&out, h)
 		m.Hdr, m.HdrBytes = h, out.Bytes()
 		m.Body = []byte("body of " + m.ID + "\r\n.dot\r\n")
+		if s.T.Choose(st, 3) == 0 {
+			// larger than the client's write buffer: the transfer takes several writes
+			m.Body = append(m.Body, bytes.Repeat([]byte("0123456789abcdef0123456789abcdef0123456789abcdef0123456789abcde\r\n"), 200)...)
+		}
 		sc.Msgs = append(sc.Msgs, m)
 	}
 	total := nm * sc.MaxTries
@@ -130,6 +134,7 @@ func RunQB(s *simrt.Sim, a *harness.Args, r *harness.Result) {
 	}
 	for i := 0; i < total; i++ {
 		plan.DropAfterFinal = append(plan.DropAfterFinal, s.T.Bool("plan", num, 48))
+		plan.DropMidData = append(plan.DropMidData, s.T.Bool("plan", num, 24))
 		d := -1
 		if lmtp && s.T.Bool("plan", num, 32) {
 			d = s.T.Choose("plan", 3)
@@ -141,7 +146,16 @@ func RunQB(s *simrt.Sim, a *harness.Args, r *harness.Result) {
 	w.fs = simfs.New()
 	simfs.Use(w.fs)
 	simfs.MkdirAll(spool, 0o755)
+	if s.T.Choose(st, 4) == 0 {
+		// one transient read error on a spooled body, i.e. while an attempt
+		// transmits it: that attempt fails, the outcome stays unique
+		w.fs.FaultOps = map[string]bool{"read": true}
+		w.fs.FaultSuffix = ".body"
+		w.fs.FaultBudget = 1
+		w.fs.FaultNum, w.fs.FaultDen = 1, 3
+	}
 	nw := simnet.New()
+	nw.SockBuf = []int{0, 0, 4096}[s.T.Choose(st, 3)]
 	simnet.SetCurrent(nw, "192.0.2.1:40000")
 	defer simnet.SetCurrent(nil, "")
 	mx := &actors.ScriptedMX{Host: "mx1.dest.example", Plan: plan, PKI: actors.SharedPKI()}
